@@ -1124,7 +1124,7 @@ class DirectorHandler:
             return
         async with self.db:
             # Make all failed steps pending again for rerun.
-            for step in self.workflow.steps(StepState.FAILED):
+            for step in self.workflow.steps(StepState.FAILED, include_detached=True):
                 self.workflow.mark_step_pending(step)
         self.watcher.end_watching.set()
         await wait_for_any_event(self.watcher.done_watching, self.stop_event)
